@@ -117,7 +117,11 @@ Inductive path :=
 | PArrLitAssign1   (* a = [..];  1-D      CommonOperations::assign_array_literal_to_variable (operations.cpp:68): clamp only; read narrows.
                       Also `typedef T A; A[n] a = [..];` (initialization.cpp handle_array_literal_initialization -> the same function) *)
 | PArrLitAssignN   (* m = [[..]..];       same function, nested literal: clamp only *)
-| PArrCopy         (* a = b; T[n] a = f(); array parameter: the Variable is replaced wholesale (element type included): nothing *).
+| PArrCopy         (* a = b; T[n] a = f(); array parameter: the Variable is replaced wholesale (element type included): nothing *)
+| PMember          (* s.m = e; s.m op= e; S s = {e,..}; s.a[i] = e;  member_assignment.cpp / managers/structs/assignment.cpp: the unsigned clamp
+                      only, no range check (findings C04-struct-member-unchecked, C04-generic-struct-member) *)
+| PIndirect        (* o.in.m = e; p->m = e; *p = e; T& q = t; q = e;  nested members, arrow, pointer and reference stores write Variable::value
+                      directly: no clamp, no check (findings C04-struct-member-unchecked, -pointer-store-, -reference-store-unchecked) *).
 
 (* the value a later read of the cell yields (what the property speaks about), or the error *)
 Definition mech_store (p : path) (t : ty) (v : Z) : ctl Z :=
@@ -131,7 +135,8 @@ Definition mech_store (p : path) (t : ty) (v : Z) : ctl Z :=
   | PAssignHint h | PDeclMulti h => mech_assign_variable h t v
   | PAssignCall | PConstGlobal => mech_assign_variable HNone t v
   | PDeclCall | PDeclTypedef => clamp_check t v
-  | PDeclTypedefTernary | PArrCopy => Val v
+  | PDeclTypedefTernary | PArrCopy | PIndirect => Val v
+  | PMember => Val (mech_clamp (uns t) v)
   | PStaticAssign => mech_check (signed_of t) v
   | PElem1Global => match mech_check (signed_of t) v with Val w => Val (narrow_read t w) | other => other end
   | PArrLitAssign1 => Val (narrow_read t (mech_clamp (uns t) v))
@@ -155,7 +160,8 @@ Definition unhinted_paths : list path := [PAssignCall; PConstGlobal].
 Definition element_paths : list path := [PElem1; PElem1Compound; PIncDecElem1; PLit1].
 Definition unchecked_paths : list path :=
   [PStatic; PElem1; PElem1Compound; PIncDecElem1; PLit1; PGlobalArr; PAssignFromElemN; PReturnElemN;
-   PAssignHint (HTy TBool); PDeclMulti (HTy TBool); PDeclTypedefTernary; PStaticAssign; PElem1Global; PArrLitAssign1; PArrLitAssignN; PArrCopy].
+   PAssignHint (HTy TBool); PDeclMulti (HTy TBool); PDeclTypedefTernary; PStaticAssign; PElem1Global; PArrLitAssign1; PArrLitAssignN; PArrCopy;
+   PMember; PIndirect].
 
 (* the documented ranges (docs/spec.md "基本型"): n-bit two's complement / n-bit unsigned *)
 Definition bits_of (b : ity) : option Z :=
